@@ -921,6 +921,42 @@ func (tb *TB) QueryOpt(asserts []*Term, want []*Term, logicALL bool, absMul bool
 		sb.WriteString(")\n")
 	}
 	if absMul {
+		// ground instances of laws of multiplication that hold for bvmul when no wrap-around is
+		// possible (operands in [0, 2^(w/2-1))): sign, strict monotonicity in a shared factor
+		var prods []*Term
+		for _, t := range order {
+			if t.Op == "bvmul" && t.Args[0].Op != "bv" && t.Args[1].Op != "bv" && !t.hasBnd {
+				prods = append(prods, t)
+			}
+		}
+		ps := func(t *Term) string { var b strings.Builder; p.str(t, &b); return b.String() }
+		for i, t := range prods {
+			w := t.Sort.W
+			zero := bvLit(big.NewInt(0), w)
+			L := bvLit(new(big.Int).Lsh(big.NewInt(1), uint(w/2-1)), w)
+			L2 := bvLit(new(big.Int).Lsh(big.NewInt(1), uint(w-2)), w)
+			rng := func(s string) string { return fmt.Sprintf("(bvsle %s %s) (bvslt %s %s)", zero, s, s, L) }
+			x, y, m := ps(t.Args[0]), ps(t.Args[1]), ps(t)
+			fmt.Fprintf(&sb, "(assert (=> (and %s %s) (and (bvsle %s %s) (bvslt %s %s))))\n", rng(x), rng(y), zero, m, m, L2)
+			for _, u := range prods[i+1:] {
+				if u.Sort.W != w {
+					continue
+				}
+				for ti := 0; ti < 2; ti++ {
+					for ui := 0; ui < 2; ui++ {
+						c := ps(t.Args[ti])
+						c2 := ps(u.Args[ui])
+						a := ps(t.Args[1-ti])
+						b := ps(u.Args[1-ui])
+						um := ps(u)
+						same := fmt.Sprintf("(= %s %s)", c, c2)
+						fmt.Fprintf(&sb, "(assert (=> (and %s %s %s %s (bvslt %s %s)) (bvsle (bvadd %s %s) %s)))\n", same, rng(a), rng(b), rng(c), a, b, m, c, um)
+						fmt.Fprintf(&sb, "(assert (=> (and %s %s %s %s (bvslt %s %s)) (bvsle (bvadd %s %s) %s)))\n", same, rng(a), rng(b), rng(c), b, a, um, c, m)
+						fmt.Fprintf(&sb, "(assert (=> (and %s (= %s %s)) (= %s %s)))\n", same, a, b, m, um)
+					}
+				}
+			}
+		}
 		// ground instances of commutativity and of the zero law for every abstracted product
 		for _, t := range order {
 			if t.Op == "bvmul" && t.Args[0].Op != "bv" && t.Args[1].Op != "bv" && !t.hasBnd {
